@@ -4,8 +4,8 @@
    under a `_partial` twin (see DESIGN.md section 9). *)
 From Coq Require Import List String Bool Permutation.
 Import ListNotations.
-From DI Require Import Syntax Tokens Bounds Param Subs Superset Substitute Spec RustSem Group Dispatch Examples ExamplesGroup.
-From DI.proofs Require Import Basics SupersetSound SupersetExact SubstituteProofs BoundsProofs DispatchProofs GroupProofs ParamProofs RustSemProofs.
+From DI Require Import Syntax Tokens Bounds Param Subs Superset Substitute Spec RustSem Group Validate Dispatch Examples ExamplesGroup.
+From DI.proofs Require Import Basics SupersetSound SupersetExact SubstituteProofs BoundsProofs DispatchProofs GroupProofs ParamProofs RustSemProofs ValidateProofs.
 
 (* ===================================================================================== *)
 (* C09 -- header generalisation is exact first-order matching                             *)
@@ -285,3 +285,53 @@ Theorem C16_exact_per_instantiation : forall (Q V : Type) keyvals (members : lis
             exists m, In m members /\ m_applies Q V m q = true.
 Proof. exact exact_coverage. Qed.
 Print Assumptions C16_exact_per_instantiation.
+
+(* ===================================================================================== *)
+(* C17 -- inherent mode fidelity                                                           *)
+(* ===================================================================================== *)
+
+(* the items exist for a type exactly when a block applies to it (queries with no trait) *)
+Theorem C17_exact_coverage : forall (Q V : Type) keyvals (members : list (member Q V)),
+  grouping_invariant Q V keyvals members ->
+  forall q, main_applies Q V keyvals members q = true <->
+            exists m, In m members /\ m_applies Q V m q = true.
+Proof. exact exact_coverage. Qed.
+Print Assumptions C17_exact_coverage.
+
+(* the generated inherent impl takes every item's visibility from the first member; once
+   validation accepts the family (fix F7) that is the visibility EVERY member wrote *)
+Theorem C17_visibility_uniform : forall f others,
+  validate_inherent (f :: others) = None ->
+  forall o, In o others ->
+  Forall (fun fi => exists s, In s (v_items o) /\ ikind_eqb (i_kind s) (i_kind fi) = true /\
+                              String.eqb (i_name s) (i_name fi) = true /\ i_vis s = i_vis fi) (v_items f).
+Proof. exact inherent_visibility_uniform. Qed.
+Print Assumptions C17_visibility_uniform.
+
+(* ===================================================================================== *)
+(* C14 -- malformed invocations are rejected with the specific diagnostic                  *)
+(* ===================================================================================== *)
+
+Theorem C14_other_trait : forall t pre i post n,
+  Forall (header_ok t) pre -> v_trait i = Some n -> n <> t_name t ->
+  validate_trait t (pre ++ i :: post) = Some DoesntMatchTrait.
+Proof. exact other_trait_diagnosed. Qed.
+Print Assumptions C14_other_trait.
+
+Theorem C14_inherent_in_trait_mode : forall t pre i post,
+  Forall (header_ok t) pre -> v_trait i = None ->
+  validate_trait t (pre ++ i :: post) = Some ExpectedTraitImpl.
+Proof. exact inherent_in_trait_mode_diagnosed. Qed.
+Print Assumptions C14_inherent_in_trait_mode.
+
+Theorem C14_unsafety_mismatch : forall t pre i post,
+  Forall (header_ok t) pre -> v_trait i = Some (t_name t) -> v_unsafe i <> t_unsafe t ->
+  validate_trait t (pre ++ i :: post) = Some DoesntMatchTrait.
+Proof. exact unsafety_mismatch_diagnosed. Qed.
+Print Assumptions C14_unsafety_mismatch.
+
+Theorem C14_trait_in_inherent_mode : forall pre i post n,
+  Forall (fun a => v_trait a = None) pre -> v_trait i = Some n ->
+  validate_inherent (pre ++ i :: post) = Some ExpectedInherent.
+Proof. exact trait_in_inherent_mode_diagnosed. Qed.
+Print Assumptions C14_trait_in_inherent_mode.
